@@ -3,7 +3,7 @@ import ast
 
 import z3
 
-from .sorts import (ArrT, SV, PyVal, PyTuple, Closure, BoundMethod, ModuleRef, ClassRef, SpecFn, INT, BOOL, STR, REAL, VAL, NONE,
+from .sorts import (PyDict, PyProperty, ArrT, SV, PyVal, PyTuple, Closure, BoundMethod, ModuleRef, ClassRef, SpecFn, INT, BOOL, STR, REAL, VAL, NONE,
                     NONE_V, RefT, SeqT, SetT, MapT, TupT, Val, Ref, null, zsort, fresh, mk_bool, mk_int, mk_str, fresh_name)
 from .values import (mem, nth, OutsideSubset, coerce, box, unbox, py_eq, truthy, ite, tup_items, empty_map, join_sort, is_ref,
                      int_to_str, default_term)
@@ -14,7 +14,7 @@ BUILTIN_NAMES = set('len list tuple set frozenset dict zip enumerate reversed ra
                     'all any map'.split())
 SPEC_NAMES = set('old result implies fresh unchanged seq_remove seq_index ite map_keys is_int is_str is_none is_bool is_real '
                  'upper lower class_defaults int_str every refs anyref ints strs vals arr_set arr_dec_above seq_without seq_take '
-                 'seq_drop allocated map_set map_del same'.split())
+                 'seq_drop allocated map_set map_del same as_str as_int int_literal float float_literal is_digits join'.split())
 EXC_NAMES = set('Exception KeyError IndexError ValueError TypeError AttributeError StopIteration ZeroDivisionError AssertionError '
                 'RuntimeError NotImplementedError LookupError ArithmeticError BaseException'.split())
 
@@ -119,7 +119,9 @@ class ExprMixin(object):
 
     def ev_Dict(self, node, st):
         if node.keys:
-            raise OutsideSubset('non-empty dict literal')
+            if all(isinstance(k, ast.Constant) and isinstance(k.value, str) for k in node.keys):
+                return PyDict((k.value, self.ev(v, st)) for k, v in zip(node.keys, node.values))
+            raise OutsideSubset('dict literal with computed keys')
         return SV(MapT(None, None), {})
 
     def ev_Lambda(self, node, st):
@@ -221,6 +223,8 @@ class ExprMixin(object):
         if isinstance(node.op, ast.Not):
             return mk_bool(z3.Not(self.ev_truth(node.operand, st)))
         v = self.ev(node.operand, st)
+        if isinstance(node.op, ast.UAdd) and not isinstance(v, PyVal) and v.sort in (INT, REAL, VAL):
+            return v if v.sort != VAL else SV(VAL, Val.VInt(unbox(v, INT).t))
         if isinstance(node.op, ast.USub):
             if v.sort == INT:
                 return SV(INT, -v.t)
@@ -271,6 +275,9 @@ class ExprMixin(object):
             if isinstance(op, (ast.Add, ast.Sub, ast.Mult)):
                 a, b = coerce(l, INT).t, coerce(r, INT).t
                 return SV(VAL, Val.VInt({ast.Add: a + b, ast.Sub: a - b, ast.Mult: a * b}[type(op)]))
+            if isinstance(op, (ast.Div, ast.Mod, ast.FloorDiv)):
+                f = z3.Function('val_%s' % type(op).__name__.lower(), Val, Val, Val)     # not modelled: an abstract value
+                return SV(VAL, f(box(l).t, box(r).t))
             raise OutsideSubset('operator %s on Val' % type(op).__name__)
         nums = (INT, BOOL)
         if ls in nums and rs in nums:
@@ -334,6 +341,12 @@ class ExprMixin(object):
             spec = fmt[j + 1:j + 2]
             if spec == '%':
                 parts.append(z3.StringVal('%'))
+            elif spec == 'f':
+                if k >= len(args):
+                    raise OutsideSubset('format arity')
+                a = args[k]
+                k += 1
+                parts.append(z3.Function('format_f', z3.RealSort(), z3.StringSort())(coerce(coerce(a, INT) if a.sort == BOOL else a, REAL).t if a.sort != VAL else unbox(a, REAL).t))
             elif spec in 'ds':
                 if k >= len(args):
                     raise OutsideSubset('format arity')
@@ -365,6 +378,9 @@ class ExprMixin(object):
             opaque = z3.Function('str_of_val', Val, z3.StringSort())
             return z3.If(Val.is_VStr(t), Val.sval(t), z3.If(Val.is_VInt(t), int_to_str(Val.ival(t)), opaque(t)))
         if is_ref(a.sort):
+            text = self.reg.class_info(a.sort.cls, 'str') if a.sort.cls else None
+            if text is not None:
+                return self.spec_eval(text, st, {'self': a}).t
             return z3.Function('str_of_ref', Ref, z3.StringSort())(a.t)
         raise OutsideSubset('str() of %s' % a.sort)
 
@@ -494,6 +510,11 @@ class ExprMixin(object):
             if ci and attr in ci['attrs'] and isinstance(ci['attrs'][attr], ast.Constant):
                 return self.ev_Constant(ci['attrs'][attr], st)
             raise OutsideSubset('class attribute %s.%s' % (base.name, attr))
+        if isinstance(base, PyProperty) and attr in ('fget', 'fset'):
+            f = getattr(base, attr)
+            if f is None:
+                raise OutsideSubset('property without %s' % attr)
+            return f
         if isinstance(base, PyVal):
             raise OutsideSubset('attribute %s of %s' % (attr, type(base).__name__))
         s = base.sort
@@ -544,6 +565,23 @@ class ExprMixin(object):
                 if z3.is_int_value(i):
                     return base.items[i.as_long()]
             raise OutsideSubset('tuple index')
+        if isinstance(base, PyDict):
+            keys = list(base.items)
+            k = coerce(idx, STR).t
+            ks = z3.simplify(k)
+            if z3.is_string_value(ks):
+                if ks.as_string() in base.items:
+                    return base.items[ks.as_string()]
+                raise PyRaise('KeyError', st, 'lookup in a literal table')
+            # symbolic key: one path per entry of the table, plus the KeyError path
+            d = self.choose_n(len(keys) + 1, 'table')
+            if d == len(keys):
+                st.assume(z3.And([k != z3.StringVal(x) for x in keys]))
+                self.prune_if_dead(st)
+                raise PyRaise('KeyError', st, 'lookup in a literal table')
+            st.assume(k == z3.StringVal(keys[d]))
+            self.prune_if_dead(st)
+            return base.items[keys[d]]
         if isinstance(base, PyVal):
             raise OutsideSubset('subscript of %s' % type(base).__name__)
         s = base.sort
